@@ -336,4 +336,38 @@ def Walk.known (w : Walk) : Bool :=
 def Walk.run (w : Walk) (less : E) (x : Ind) : List Locus :=
   if w.known then walkFrom (lessBy less) x (x.rows * x.cols) [x.best] x.best else []
 
+/-! ## `i_mep::basic_iterator`: what `for (i = begin(); i != end(); ++i)` scans
+
+  `loci_` (a `std::set<locus>`) is the FRONTIER: it starts as `{best()}`; `*it` is the gene at its least
+  element; `++it` removes that element and inserts its arguments (`erase(begin())` for a terminal,
+  `extract(begin())`-re-key-`insert` + `insert(rest)` otherwise: the same set); `it == end()` iff the
+  frontier is empty. -/
+
+structure Frontier where
+  container : String
+  init : String
+  sentinel : String
+  deref : String
+  advance : String
+  atEnd : String
+  beginEnd : String
+
+def Frontier.known (w : Frontier) : Bool :=
+  w.container == "std::set<locus>" && w.init == "{id.best()}" && w.sentinel == "loci_()" &&
+  w.deref == "ind_->genome_(*loci_.cbegin())" &&
+  w.advance == "if(!empty){args:=(**this).arguments();empty?erase(begin()):replace(begin(),args.front())+insert(rest)}" &&
+  w.atEnd == "both-empty||same-cbegin" && w.beginEnd == "begin():iterator(*this);end():iterator()"
+
+/-- the loci visited, in order (`F` = the frontier, `acc` = visited so far) -/
+def frontierFrom (less : Locus → Locus → Bool) (x : Ind) : Nat → List Locus → List Locus → List Locus
+  | 0, _, acc => acc
+  | f + 1, F, acc =>
+    match minL less F with
+    | none => acc
+    | some m =>
+      frontierFrom less x f (F.filter (fun l => l != m) ++ (x.gene m.idx m.cat).argLoci) (acc ++ [m])
+
+def Frontier.run (w : Frontier) (less : E) (x : Ind) : List Locus :=
+  if w.known then frontierFrom (lessBy less) x (x.rows * x.cols) [x.best] [] else []
+
 end Vita.C02.GenSem
